@@ -51,6 +51,28 @@ def gen_cases(rng, tier):
         c["dtype"] = rng.choice(["uint8", "uint16"])
         c.pop("dtype_pos", None), c.pop("dtype_neg", None)
         cases.append(c)
+    # probability-like scores whose smallest / largest value is exactly 0.0 / 1.0, after a BCa interval of an error-rate ratio
+    # was computed on the same object
+    for j in range({"quick": 12, "thorough": 100, "search": 40}[tier]):
+        c = tc.thr_case(rng, True)
+        from fractions import Fraction as _Fr
+        n1, n2 = rng.randint(3, 8), rng.randint(3, 8)
+        c["pos"] = [enc(_Fr(v, 8)) for v in ([0] if j % 2 else []) + [rng.randint(0, 8) for _ in range(n1)]]
+        c["neg"] = [enc(_Fr(v, 8)) for v in ([] if j % 2 else [0]) + [rng.randint(0, 8) for _ in range(n2)]]
+        c["dtype"] = "float64"
+        c.pop("dtype_pos", None), c.pop("dtype_neg", None)
+        c["exact"] = False
+        c["warm_ci"] = rng.randint(1, 10 ** 6)
+        cases.append(c)
+    # derived objects: smoothed replacement bootstrap samples of small objects (arbitrary doubles), every configuration
+    for j in range({"quick": 24, "thorough": 240, "search": 80}[tier]):
+        c = tc.thr_case(rng, False)
+        if not (c["pos"] and c["neg"]):
+            continue
+        c["via"], c["via_seed"], c["dtype"] = "smoothed", rng.randint(0, 10 ** 6), "float64"
+        c["sc"], c["ec"] = CONFIGS[j % 4]
+        c.pop("dtype_pos", None), c.pop("dtype_neg", None)
+        cases.append(c)
     # large populations (generated from a seed inside the driver, distinct doubles): targets a few samples from either
     # end of the scale, where "within one sample" is a relative accuracy of 1e-5 and below
     for j in range({"quick": 4, "thorough": 24, "search": 8}[tier]):
@@ -108,6 +130,7 @@ def run_impl(case):
 def coq_term(case, res):
     if case.get("kind") == "big":
         return None
+    case = tc.effective(case, res)
     if "ok" not in res:
         if res.get("err") == "ValueError":
             return (f"(let s := {tc.scores_term(case)} in thr_raises {tc.COQ_METRIC[case['metric']]} s Linear 0) && "
@@ -137,6 +160,7 @@ def _untied(case, tau):
 
 
 def oracle(case, res):
+    case = tc.effective(case, res)
     if case.get("kind") == "big":
         if "ok" not in res:
             return [("C02/exception", f"threshold_at_{case['metric']} raised {res.get('err')}: {res.get('msg')}")]
